@@ -669,7 +669,9 @@ class Css:
             T.append((r'^parse_rules$', c3))
         if 'write_maybe_class_name' in names:
             def c4(exe, path, callee, args, dst_ty):
-                path.event('class_name', exe.snapshot(path, args[2]), exe.snapshot(path, args[3]), args[4])
+                # (input, ss, token, [source spelling,] in_class): the spelling argument is optional (a signature without it is a legal refactoring)
+                src = exe.snapshot(path, args[3]) if len(args) >= 5 else None
+                path.event('class_name', exe.snapshot(path, args[2]), src, args[-1])
                 env.havoc(exe, path, args[1])
                 return [('ret', path, UNIT)]
             T.append((r'^write_maybe_class_name$', c4))
